@@ -265,19 +265,47 @@ where
 }
 
 // ---- key constructors through the public conversions of each key type
-fn mk_str(k: &[u8], t: u64) -> DbString {
-    match std::str::from_utf8(k) {
-        Ok(s) if t % 3 == 0 => DbString::from(s),
-        Ok(s) if t % 3 == 1 => DbString::from(s.to_string()),
-        _ => DbString::from(k),
+/// every byte-ish `From` conversion of a key type, chosen by the tick (all must give the same key)
+fn mk_any<KT>(k: &[u8], t: u64) -> KT
+where
+    KT: for<'a> From<&'a [u8]> + From<Vec<u8>> + for<'a> From<&'a str> + From<String> + for<'a> From<&'a String> + for<'a> From<&'a KT>,
+    KT: for<'a> From<&'a [u8; 1]> + for<'a> From<&'a [u8; 2]> + for<'a> From<&'a [u8; 3]> + for<'a> From<&'a [u8; 8]> + for<'a> From<&'a [u8; 9]>,
+{
+    let utf8 = std::str::from_utf8(k).ok();
+    match (t / 2) % 7 {
+        0 => KT::from(k),
+        1 => KT::from(k.to_vec()),
+        2 if utf8.is_some() => KT::from(utf8.unwrap()),
+        3 if utf8.is_some() => KT::from(utf8.unwrap().to_string()),
+        4 if utf8.is_some() => KT::from(&utf8.unwrap().to_string()),
+        5 => match k.len() {
+            1 => KT::from(<&[u8; 1]>::try_from(k).unwrap()),
+            2 => KT::from(<&[u8; 2]>::try_from(k).unwrap()),
+            3 => KT::from(<&[u8; 3]>::try_from(k).unwrap()),
+            8 => KT::from(<&[u8; 8]>::try_from(k).unwrap()),
+            9 => KT::from(<&[u8; 9]>::try_from(k).unwrap()),
+            _ => KT::from(k),
+        },
+        6 => {
+            let a = KT::from(k);
+            KT::from(&a)
+        }
+        _ => KT::from(k),
     }
 }
-fn mk_bytes(k: &[u8], t: u64) -> DbBytes {
-    if t % 2 == 0 {
-        DbBytes::from(k)
-    } else {
-        DbBytes::from(k.to_vec())
+fn mk_str(k: &[u8], t: u64) -> DbString {
+    if k.len() == 8 && t % 5 == 0 {
+        let x = u64::from_be_bytes(k.try_into().unwrap());
+        return if t % 2 == 0 { DbString::from(x) } else { DbString::from(&x) };
     }
+    mk_any(k, t)
+}
+fn mk_bytes(k: &[u8], t: u64) -> DbBytes {
+    if k.len() == 8 && t % 5 == 0 {
+        let x = u64::from_be_bytes(k.try_into().unwrap());
+        return if t % 2 == 0 { DbBytes::from(x) } else { DbBytes::from(&x) };
+    }
+    mk_any(k, t)
 }
 fn mk_u64(k: &[u8], t: u64) -> DbU64 {
     if k.len() == 8 {
@@ -288,7 +316,7 @@ fn mk_u64(k: &[u8], t: u64) -> DbU64 {
             DbU64::from(&x)
         }
     } else {
-        DbU64::from(k)
+        mk_any(k, t)
     }
 }
 fn mk_i64(k: &[u8], t: u64) -> DbI64 {
@@ -300,7 +328,7 @@ fn mk_i64(k: &[u8], t: u64) -> DbI64 {
             DbI64::from(&x)
         }
     } else {
-        DbI64::from(k)
+        mk_any(k, t)
     }
 }
 /// the harness's own vu64 decoder (written from the format table in the vu64 documentation)
@@ -356,7 +384,8 @@ fn mk_vu64(k: &[u8], t: u64) -> DbVu64 {
                 DbVu64::from(&x)
             }
         }
-        _ => DbVu64::from(k),
+        _ if t % 2 == 0 => DbVu64::from(k),
+        _ => DbVu64::from(k.to_vec()),
     }
 }
 fn back_any<KT>(_k: &KT) -> bool {
@@ -505,6 +534,7 @@ impl Impl {
             Op::Inc(k) => res(self.h().inc(&k.bytes()), |b| b.to_string()),
             Op::Len => res(self.h().len(), |n| n.to_string()),
             Op::Empty => res(self.h().is_empty(), |b| b.to_string()),
+            Op::IsDirty => self.h().is_dirty().to_string(),
             Op::Iter(f) => self.h().iter(*f),
             Op::Stats => res(self.h().stats(), |s| s),
             Op::Flush => res(self.h().flush(), |_| "ok".into()),
